@@ -162,6 +162,22 @@ void h_comp_add_to_data(void) {
     V_COVER(r && in.data_size0 > 0 && in.n > 0); V_COVER(!r);
 }
 
+/* ---- option setter: chunk size bounds (C01/C16: the writer units assume OPT_WF of their pre-state) ---------- */
+typedef struct { zckCtx any; int which; ssize_t value; } IN_opt;
+V_INPUT(IN_opt)
+void h_comp_ioption_bounds(void) {
+    IN_opt in = nondet_IN_opt();
+    zckCtx *zck = malloc(sizeof(*zck));
+    V_ASSUME(zck != NULL);
+    *zck = in.any;
+    V_ASSUME(zck->error_state >= 0 && zck->error_state <= 2);
+    zck_ioption opt = in.which ? ZCK_CHUNK_MIN : ZCK_CHUNK_MAX;
+    int wf0 = OPT_WF(zck);
+    bool r = comp_ioption(zck, opt, in.value);
+    V_ASSERT(!wf0 || OPT_WF(zck), "C01,C16.comp_ioption.minimum_never_set_above_the_maximum_in_force");
+    V_COVER(r && in.which && wf0); V_COVER(r && !in.which && wf0); V_COVER(!r && zck->error_state > 0 && in.which);
+}
+
 /* ---- control-only unit of comp_read (-DVERIF_CTL): arbitrary context, arbitrary index list ------------
  * No list shape, no buffer well-formedness: the context and the (up to two distinct) chunk records the
  * function can reach before a callee moves the cursor are fully nondeterministic.  Proves the control and
